@@ -4,9 +4,13 @@ import (
 	"context"
 	"encoding/base64"
 	"encoding/json"
+	"fmt"
+	"io"
 	"math/rand"
+	"net/http"
 	"net/http/httptest"
 	"net/url"
+	"path/filepath"
 	"strconv"
 	"strings"
 	"time"
@@ -233,6 +237,25 @@ func streamC15(env *runEnv) {
 					}
 				}
 			}
+			// re-encodings a lenient reader might "repair": the standard base64 alphabet, padding, quotes
+			for si := range segs {
+				for _, sub := range [][2]string{{"-", "+"}, {"_", "/"}, {"-", " "}, {"-", "%2D"}} {
+					if !strings.Contains(segs[si], sub[0]) {
+						continue
+					}
+					ms := append([]string{}, segs...)
+					ms[si] = strings.Replace(segs[si], sub[0], sub[1], 1)
+					env.count("c15.mutation.reencoded")
+					emitUserTok(env, mint[0], mint[1], "U", strings.Join(ms, "."))
+				}
+				ms := append([]string{}, segs...)
+				ms[si] += "="
+				emitUserTok(env, mint[0], mint[1], "U", strings.Join(ms, "."))
+			}
+			for _, w := range []string{"\"" + tok + "\"", "'" + tok + "'", "Bearer " + tok, tok + "=", tok + "=="} {
+				env.count("c15.mutation.reencoded")
+				emitUserTok(env, mint[0], mint[1], "U", w)
+			}
 		}
 		// built directly: other keys, algorithms, issuers, expiry
 		type v struct {
@@ -317,4 +340,99 @@ func abstractJWE(orig, origTerm, mut string) string {
 		}
 	}
 	return origTerm
+}
+
+func init() { streams["c15gw"] = streamC15gw }
+
+// streamC15gw: the token-info endpoint of the real binary, started from a
+// configuration file that names the keys (and nothing else about user tokens):
+// what main() wires into the security package is part of the behaviour.
+func streamC15gw(env *runEnv) {
+	idp := newFakeIdP()
+	defer idp.close()
+	i64 := func(v int64) *int64 { return &v }
+	for mi, mode := range [][2]string{{"E", "S"}, {"E", "-"}} {
+		dir := filepath.Join(env.workdir, fmt.Sprintf("c15gw-%d", mi))
+		gc := gwConfig{authSet: true, auth: []string{"openid"}, tlsDisable: true, hosts: []string{"10.9.8.7:3389"},
+			providerURL: idp.srv.URL, clientID: idp.clientID, enableUserTok: true, userEncKey: string(encKey)}
+		if mode[1] == "S" {
+			gc.userSignKey = string(userSignKey)
+		}
+		yaml, ev := gc.render("file")
+		g, ok := startGateway(dir, yaml, ev, false)
+		if !ok {
+			panic("C15: gateway did not start: " + g.logs())
+		}
+		now := time.Now().Unix()
+		name := "alice"
+		type bt struct {
+			enc  []byte
+			sign []byte
+			c    uclaims
+		}
+		kn := func(k []byte) string {
+			switch string(k) {
+			case string(encKey):
+				return "E"
+			case string(userSignKey):
+				return "S"
+			}
+			return "O"
+		}
+		good := uclaims{Iss: "rdpgw", Sub: name, Exp: i64(now + 300)}
+		var toks [][2]string // term, text
+		for _, b := range []bt{
+			{encKey, userSignKey, good}, {encKey, nil, good},
+			{otherEncKey, userSignKey, good}, {encKey, otherSignKey, good},
+			{encKey, userSignKey, uclaims{Iss: "other", Sub: name, Exp: i64(now + 300)}}, {encKey, nil, uclaims{Iss: "other", Sub: name, Exp: i64(now + 300)}},
+			{encKey, userSignKey, uclaims{Iss: "", Sub: name, Exp: i64(now + 300)}}, {encKey, nil, uclaims{Iss: "", Sub: name, Exp: i64(now + 300)}},
+			{encKey, userSignKey, uclaims{Iss: "rdpgw", Sub: name, Exp: i64(now - 3600)}}, {encKey, nil, uclaims{Iss: "rdpgw", Sub: name, Exp: i64(now - 3600)}},
+			{encKey, userSignKey, uclaims{Iss: "rdpgw", Sub: name}},
+		} {
+			var salg jose.SignatureAlgorithm
+			tm := "X:DIRECT:A128CBC_HS256:" + kn(b.enc) + ":1:"
+			if b.sign != nil {
+				salg = jose.HS256
+				tm += "S:HS256:" + kn(b.sign) + ":" + b.c.t()
+			} else {
+				tm += "P:" + b.c.t()
+			}
+			toks = append(toks, [2]string{tm, buildJWE(jose.DIRECT, jose.A128CBC_HS256, b.enc, true, salg, b.sign, b.c)})
+		}
+		toks = append(toks, [2]string{"U", "hello"}, [2]string{"U", "a.b.c.d.e"}, [2]string{"U", "e30.e30.e30"})
+		for _, t := range toks {
+			for _, m := range []struct{ method, param string }{{"GET", "tok"}, {"POST", "tok"}, {"GET", "none"}, {"GET", "empty"}} {
+				u := g.base() + "/tokeninfo"
+				switch m.param {
+				case "tok":
+					u += "?access_token=" + url.QueryEscape(t[1])
+				case "empty":
+					u += "?access_token="
+				}
+				req, _ := http.NewRequest(m.method, u, nil)
+				resp, err := newBrowser().c.Do(req)
+				obs := "neterr"
+				if err == nil {
+					raw, _ := io.ReadAll(io.LimitReader(resp.Body, 1<<16))
+					resp.Body.Close()
+					body := string(raw)
+					disclosed := "0"
+					if resp.StatusCode != 200 && (strings.Contains(body, `"sub"`) || strings.Contains(body, `"iss"`) || strings.Contains(body, name)) {
+						disclosed = "1"
+					}
+					sub := ""
+					if resp.StatusCode == 200 {
+						var out map[string]interface{}
+						if json.Unmarshal(raw, &out) == nil {
+							sub, _ = out["sub"].(string)
+						}
+					}
+					obs = strconv.Itoa(resp.StatusCode) + ":" + hx([]byte(sub)) + ":" + disclosed
+				}
+				env.count("c15gw.request." + m.method)
+				env.emit("tokeninfo", m.method, m.param, mode[0], mode[1], strconv.FormatInt(now, 10), t[0], obs)
+			}
+		}
+		g.stop()
+	}
 }
